@@ -89,6 +89,43 @@ def chain_filter_status(facts, t):
     return st
 
 
+def _filters_select_exactly(facts, t, variant):
+    """every `filter` closure of the chain t keeps an element iff its status is `variant` (true result: status == variant and
+    nothing else; false result: status != variant)"""
+    from ..conds import closure_result_lits, unaccepted
+    from ..common import iter_chain
+    n = 0
+    for x in iter_chain(t):
+        if callee_name(x) != "filter" or len(x[2]) < 2:
+            continue
+        c_ = x[2][1]
+        hops = 0
+        while hops < 20 and c_[0] in ("ref", "deref", "cast", "var"):
+            hops += 1
+            c_ = c_[3] if c_[0] == "var" else c_[1]
+        fcb = facts.body(c_[1]) if c_[0] == "closure" else None
+        if fcb is None:
+            return False
+        tl = closure_result_lits(fcb, facts, True)
+        fl = closure_result_lits(fcb, facts, False)
+        if status_from_lits(tl) != variant:
+            return False
+        if unaccepted(tl, lambda l: (l.kind in ("call", "cmp") and any(status_variant(y) for y in walk(l.term))) or
+                      (l.kind == "variant" and (l.adt == STATUS or (l.variants and l.variants <= {"Ok", "Some", "Continue"})))):
+            return False
+        neg = False
+        for l in fl:
+            if l.kind == "call" and callee_name(l.term) in ("eq", "ne") and l.truth == (callee_name(l.term) == "ne"):
+                for y in l.term[2][:2]:
+                    v = status_variant(y)
+                    if v and v[1] == variant:
+                        neg = True
+        if not neg:
+            return False
+        n += 1
+    return n > 0
+
+
 def status_from_lits(lits):
     st = None
     for l in lits:
@@ -157,10 +194,10 @@ def run(facts, res):
         if v == "Applied":
             ok = False
             for l in lits_of(b, bi, facts):
-                if l.kind == "call" and callee_name(l.term) == "is_ok" and l.truth is True and \
+                if l.kind == "call" and l.says_ok() and l.term[2] and \
                         any(contains_call(l.term[2][0], ap.name) for ap in appliers):
-                    ok = True
-                if l.kind == "variant" and l.variants == {"Ok"} and any(contains_call(l.term, ap.name) for ap in appliers):
+                    ok = True       # is_ok() == true / is_err() == false
+                if l.kind == "variant" and l.variants and l.variants <= {"Ok", "Continue"} and any(contains_call(l.term, ap.name) for ap in appliers):
                     ok = True
             res.instance("A1", "%s writes Applied after a successful apply: %s" % (b.path, ok), b.loc(st.line))
             if not ok:
@@ -239,9 +276,29 @@ def run(facts, res):
         for r in reset_sites:
             recv = arg_term(rf, r.term, 0, 30)
             names = [callee_name(c) for c in walk(recv, False) if c[0] == "call"]
-            if not (set(names) & {"filter", "take", "skip", "step_by", "take_while", "skip_while"}) and \
-                    any(x[0] == "field" and x[2] == "deltas" for x in walk(recv)):
+            sel = set(names) & {"filter", "take", "skip", "step_by", "take_while", "skip_while"}
+            if sel == {"filter"} and _filters_select_exactly(facts, recv, "Blocked"):
+                sel = set()         # `.filter(|d| d.status == Blocked).for_each(reset)`: the filter is the status test itself
+            if not sel and any(x[0] == "field" and x[2] == "deltas" for x in walk(recv)):
                 whole = True
+        # loop form: `for d in deltas.values() { if d.status == Blocked { d.status = Pending } }`
+        for (bi, st, v) in status_writes(rf):
+            if v == "Pending" and status_guard(rf, bi, facts) == "Blocked":
+                for l in lits_of(rf, bi, facts):
+                    if l.kind == "variant" and l.variants == {"Some"} and not l.derived:
+                        pt = peel(l.term)
+                        if pt[0] == "call" and callee_name(pt) == "next" and pt[2] and cfg.is_loop_header(pt[3]):
+                            names = [callee_name(c) for c in walk(pt[2][0], False) if c[0] == "call"]
+                            if not (set(names) & {"filter", "take", "skip", "step_by", "take_while", "skip_while", "filter_map"}) and \
+                                    any(x[0] == "field" and x[2] == "deltas" for x in walk(pt[2][0])):
+                                whole = True
+
+                                class _S:
+                                    pass
+                                ps = _S()
+                                ps.block = pt[3]
+                                reset_sites.append(ps)
+        ok = bool(reset_sites) and bool(marks) and all(any(cfg.dominates(r.block, m.block) for r in reset_sites) for m in marks)
         n4 += 1
         res.instance("A4", "refresh: Blocked->Pending pass over the whole block map (%s) dominates the marking pass (%s)" % (whole, ok), rf.loc())
         if not (ok and whole):
@@ -485,7 +542,7 @@ def _same_delta(body, block, arg, facts):
         return out
     a = srcs(arg)
     for l in lits_of(body, block, facts):
-        if (l.kind == "call" and callee_name(l.term) == "eq") or (l.kind == "variant" and l.adt == STATUS):
+        if (l.kind == "call" and callee_name(l.term) in ("eq", "ne")) or (l.kind == "variant" and l.adt == STATUS):
             for x in (l.term[2] if l.kind == "call" else [l.term]):
                 if any(z[0] == "field" and z[2] == "status" for z in walk(x)):
                     # ignore the guard variables themselves: compare on the underlying element
